@@ -432,6 +432,43 @@ impl Signature {
         Ok(())
     }
 
+    /// The key-related checks that `verify` performs, for inline verification.
+    pub(crate) fn check_inline_verification_preconditions(
+        sig: &Signature,
+        key: &dyn VerifyingKey,
+        config: &SignatureConfig,
+    ) -> Result<()> {
+        if key.version() == KeyVersion::V6 {
+            ensure_eq!(
+                config.version(),
+                SignatureVersion::V6,
+                "Non v6 signature by a v6 key is not allowed"
+            );
+        }
+        if config.version() == SignatureVersion::V6 {
+            ensure_eq!(
+                key.version(),
+                KeyVersion::V6,
+                "v6 signature by a non-v6 key is not allowed"
+            );
+        }
+        Self::check_signature_hash_strength(config)?;
+
+        let issuer_key_ids = sig.issuer_key_id();
+        let issuer_fps = sig.issuer_fingerprint();
+        let matches = (issuer_key_ids.is_empty() && issuer_fps.is_empty())
+            || issuer_key_ids
+                .iter()
+                .any(|&key_id| key_id == &key.legacy_key_id())
+            || issuer_fps.iter().any(|&fp| fp == &key.fingerprint());
+        ensure!(
+            matches,
+            "verify: No matching issuer_key_id or issuer_fingerprint for Key ID: {:?}",
+            &key.legacy_key_id(),
+        );
+        Ok(())
+    }
+
     /// Check if the hash algorithm is acceptable for the signature configuration
     /// (in particular, if it's allowed in combination with the public key algorithm).
     pub(crate) fn check_signature_hash_strength(config: &SignatureConfig) -> Result<()> {
